@@ -59,7 +59,7 @@ func (p c10) Run(runseed uint64, tier string, acc *Acc) []*core.Violation {
 		acc.Unusable++
 		return nil
 	}
-	kind := []string{"rs", "rsb", "rsx"}[r.Intn(3)]
+	kind := []string{"rs", "rsb", "rsx", "rsf"}[r.Intn(4)]
 	limit := 2*len(f.Want) + 16
 	base, bsrc := baselineRead(f.W.Shape, f.Data, kind, limit)
 	if !usableBaseline(base, f.Want) {
@@ -216,7 +216,7 @@ func (p c10) Shrink(c *core.Case) []*core.Case {
 		n.SrcFault = &g
 		out = append(out, &n)
 	}
-	if c.SourceKind == "rsb" || c.SourceKind == "rsx" {
+	if c.SourceKind != "" && c.SourceKind != "rs" {
 		n := *c
 		n.SourceKind = "rs"
 		out = append(out, &n)
